@@ -21,4 +21,90 @@ def flaginteger : Nat := 2
 def flaglong : Nat := 4
 def flagcompressed : Nat := 8
 def flagtext : Nat := 16
+def keyMethods : List String := ["set", "set_many", "add", "replace", "append", "prepend", "cas", "get", "gat", "gets", "gats", "get_many", "gets_many", "delete", "delete_many", "incr", "decr", "touch"]
+def clientSigs : List (String × List (String × String)) := [
+  ("set", [("key", "REQUIRED"), ("value", "REQUIRED"), ("expire", "0"), ("noreply", "None"), ("flags", "None")]),
+  ("set_many", [("values", "REQUIRED"), ("expire", "0"), ("noreply", "None"), ("flags", "None")]),
+  ("add", [("key", "REQUIRED"), ("value", "REQUIRED"), ("expire", "0"), ("noreply", "None"), ("flags", "None")]),
+  ("replace", [("key", "REQUIRED"), ("value", "REQUIRED"), ("expire", "0"), ("noreply", "None"), ("flags", "None")]),
+  ("append", [("key", "REQUIRED"), ("value", "REQUIRED"), ("expire", "0"), ("noreply", "None"), ("flags", "None")]),
+  ("prepend", [("key", "REQUIRED"), ("value", "REQUIRED"), ("expire", "0"), ("noreply", "None"), ("flags", "None")]),
+  ("cas", [("key", "REQUIRED"), ("value", "REQUIRED"), ("cas", "REQUIRED"), ("expire", "0"), ("noreply", "False"), ("flags", "None")]),
+  ("get", [("key", "REQUIRED"), ("default", "None")]),
+  ("gat", [("key", "REQUIRED"), ("expire", "0"), ("default", "None")]),
+  ("gets", [("key", "REQUIRED"), ("default", "None"), ("cas_default", "None")]),
+  ("gats", [("key", "REQUIRED"), ("expire", "0"), ("default", "None"), ("cas_default", "None")]),
+  ("get_many", [("keys", "REQUIRED")]),
+  ("gets_many", [("keys", "REQUIRED")]),
+  ("delete", [("key", "REQUIRED"), ("noreply", "None")]),
+  ("delete_many", [("keys", "REQUIRED"), ("noreply", "None")]),
+  ("incr", [("key", "REQUIRED"), ("value", "REQUIRED"), ("noreply", "False")]),
+  ("decr", [("key", "REQUIRED"), ("value", "REQUIRED"), ("noreply", "False")]),
+  ("touch", [("key", "REQUIRED"), ("expire", "0"), ("noreply", "None")])
+]
+def pooledSigs : List (String × List (String × String)) := [
+  ("set", [("key", "REQUIRED"), ("value", "REQUIRED"), ("expire", "0"), ("noreply", "None"), ("flags", "None")]),
+  ("set_many", [("values", "REQUIRED"), ("expire", "0"), ("noreply", "None"), ("flags", "None")]),
+  ("add", [("key", "REQUIRED"), ("value", "REQUIRED"), ("expire", "0"), ("noreply", "None"), ("flags", "None")]),
+  ("replace", [("key", "REQUIRED"), ("value", "REQUIRED"), ("expire", "0"), ("noreply", "None"), ("flags", "None")]),
+  ("append", [("key", "REQUIRED"), ("value", "REQUIRED"), ("expire", "0"), ("noreply", "None"), ("flags", "None")]),
+  ("prepend", [("key", "REQUIRED"), ("value", "REQUIRED"), ("expire", "0"), ("noreply", "None"), ("flags", "None")]),
+  ("cas", [("key", "REQUIRED"), ("value", "REQUIRED"), ("cas", "REQUIRED"), ("expire", "0"), ("noreply", "False"), ("flags", "None")]),
+  ("get", [("key", "REQUIRED"), ("default", "None")]),
+  ("gat", [("key", "REQUIRED"), ("expire", "0"), ("default", "None")]),
+  ("gets", [("key", "REQUIRED"), ("default", "None"), ("cas_default", "None")]),
+  ("gats", [("key", "REQUIRED"), ("expire", "0"), ("default", "None"), ("cas_default", "None")]),
+  ("get_many", [("keys", "REQUIRED")]),
+  ("gets_many", [("keys", "REQUIRED")]),
+  ("delete", [("key", "REQUIRED"), ("noreply", "None")]),
+  ("delete_many", [("keys", "REQUIRED"), ("noreply", "None")]),
+  ("incr", [("key", "REQUIRED"), ("value", "REQUIRED"), ("noreply", "False")]),
+  ("decr", [("key", "REQUIRED"), ("value", "REQUIRED"), ("noreply", "False")]),
+  ("touch", [("key", "REQUIRED"), ("expire", "0"), ("noreply", "None")])
+]
+def hashSigs : List (String × List (String × String)) := [
+  ("set", [("key", "REQUIRED"), ("*args", "REQUIRED"), ("**kwargs", "REQUIRED")]),
+  ("set_many", [("values", "REQUIRED"), ("*args", "REQUIRED"), ("**kwargs", "REQUIRED")]),
+  ("add", [("key", "REQUIRED"), ("*args", "REQUIRED"), ("**kwargs", "REQUIRED")]),
+  ("replace", [("key", "REQUIRED"), ("*args", "REQUIRED"), ("**kwargs", "REQUIRED")]),
+  ("append", [("key", "REQUIRED"), ("*args", "REQUIRED"), ("**kwargs", "REQUIRED")]),
+  ("prepend", [("key", "REQUIRED"), ("*args", "REQUIRED"), ("**kwargs", "REQUIRED")]),
+  ("cas", [("key", "REQUIRED"), ("*args", "REQUIRED"), ("**kwargs", "REQUIRED")]),
+  ("get", [("key", "REQUIRED"), ("default", "None"), ("**kwargs", "REQUIRED")]),
+  ("gat", [("key", "REQUIRED"), ("expire", "0"), ("default", "None"), ("**kwargs", "REQUIRED")]),
+  ("gets", [("key", "REQUIRED"), ("default", "None"), ("cas_default", "None"), ("**kwargs", "REQUIRED")]),
+  ("gats", [("key", "REQUIRED"), ("expire", "0"), ("default", "None"), ("cas_default", "None"), ("**kwargs", "REQUIRED")]),
+  ("get_many", [("keys", "REQUIRED"), ("gets", "False"), ("*args", "REQUIRED"), ("**kwargs", "REQUIRED")]),
+  ("gets_many", [("keys", "REQUIRED"), ("*args", "REQUIRED"), ("**kwargs", "REQUIRED")]),
+  ("delete", [("key", "REQUIRED"), ("*args", "REQUIRED"), ("**kwargs", "REQUIRED")]),
+  ("delete_many", [("keys", "REQUIRED"), ("*args", "REQUIRED"), ("**kwargs", "REQUIRED")]),
+  ("incr", [("key", "REQUIRED"), ("*args", "REQUIRED"), ("**kwargs", "REQUIRED")]),
+  ("decr", [("key", "REQUIRED"), ("*args", "REQUIRED"), ("**kwargs", "REQUIRED")]),
+  ("touch", [("key", "REQUIRED"), ("*args", "REQUIRED"), ("**kwargs", "REQUIRED")])
+]
+def pooledForward : List (String × String × List String × List (String × String)) := [
+  ("set", "set", ["key", "value"], [("expire", "expire"), ("noreply", "noreply"), ("flags", "flags")]),
+  ("set_many", "set_many", ["values"], [("expire", "expire"), ("noreply", "noreply"), ("flags", "flags")]),
+  ("add", "add", ["key", "value"], [("expire", "expire"), ("noreply", "noreply"), ("flags", "flags")]),
+  ("replace", "replace", ["key", "value"], [("expire", "expire"), ("noreply", "noreply"), ("flags", "flags")]),
+  ("append", "append", ["key", "value"], [("expire", "expire"), ("noreply", "noreply"), ("flags", "flags")]),
+  ("prepend", "prepend", ["key", "value"], [("expire", "expire"), ("noreply", "noreply"), ("flags", "flags")]),
+  ("cas", "cas", ["key", "value", "cas"], [("expire", "expire"), ("noreply", "noreply"), ("flags", "flags")]),
+  ("get", "get", ["key", "default"], []),
+  ("gat", "gat", ["key", "expire", "default"], []),
+  ("gets", "gets", ["key", "default", "cas_default"], []),
+  ("gats", "gats", ["key", "expire", "default", "cas_default"], []),
+  ("get_many", "get_many", ["keys"], []),
+  ("gets_many", "gets_many", ["keys"], []),
+  ("delete", "delete", ["key"], [("noreply", "noreply")]),
+  ("delete_many", "delete_many", ["keys"], [("noreply", "noreply")]),
+  ("incr", "incr", ["key", "value"], [("noreply", "noreply")]),
+  ("decr", "decr", ["key", "value"], [("noreply", "noreply")]),
+  ("touch", "touch", ["key"], [("expire", "expire"), ("noreply", "noreply")])
+]
+def pooledCreateClientKw : List (String × String) := [("serde", "self.serde"), ("connect_timeout", "self.connect_timeout"), ("timeout", "self.timeout"), ("no_delay", "self.no_delay"), ("ignore_exc", "False"), ("socket_module", "self.socket_module"), ("socket_keepalive", "self.socket_keepalive"), ("key_prefix", "self.key_prefix"), ("default_noreply", "self.default_noreply"), ("allow_unicode_keys", "self.allow_unicode_keys"), ("tls_context", "self.tls_context")]
+def hashDefaultKwargs : List String := ["allow_unicode_keys", "connect_timeout", "default_noreply", "deserializer", "encoding", "key_prefix", "no_delay", "serde", "serializer", "socket_keepalive", "socket_module", "timeout", "tls_context"]
+def hashPooledDefaultKwargs : List String := ["allow_unicode_keys", "connect_timeout", "default_noreply", "deserializer", "encoding", "key_prefix", "lock_generator", "max_pool_size", "no_delay", "pool_idle_timeout", "serde", "serializer", "socket_keepalive", "socket_module", "timeout", "tls_context"]
+def clientCtorParams : List String := ["server", "serde", "serializer", "deserializer", "connect_timeout", "timeout", "no_delay", "ignore_exc", "socket_module", "socket_keepalive", "key_prefix", "default_noreply", "allow_unicode_keys", "encoding", "tls_context"]
+def pooledCtorParams : List String := ["server", "serde", "serializer", "deserializer", "connect_timeout", "timeout", "no_delay", "ignore_exc", "socket_module", "socket_keepalive", "key_prefix", "max_pool_size", "pool_idle_timeout", "lock_generator", "default_noreply", "allow_unicode_keys", "encoding", "tls_context"]
 end Generated
